@@ -54,7 +54,11 @@ Example C14_example_names :
   /\ gen_auto_add_extension "x" Ezarr = "x.zarr".
 Proof. vm_compute. repeat split; reflexivity. Qed.
 
+Theorem C14_engine_forwarded : gen_engine_forwarded_everywhere = true.
+Proof. exact bridge_engine_forwarded. Qed.
+
 Print Assumptions C14_names_agree.
 Print Assumptions C14_ext_idempotent.
 Print Assumptions C14_tmp_name_stable.
 Print Assumptions C14_attr_coercion.
+Print Assumptions C14_engine_forwarded.
